@@ -187,6 +187,11 @@ def discharge(site, facts=None):
             return "minuend >= subtrahend on every path"
         if facts is not None and known_ge_at_callers(facts, body, a, b):
             return "minuend >= subtrahend established at every call site of this helper"
+        pb = peel(b, through_try=False)
+        if facts is not None and pb.k == "const" and pb.v == 1:
+            from .. import fieldstate
+            if fieldstate.positive_at(facts, body, bb, a):
+                return "counter field is > 0 on every path reaching the decrement (path-sensitive search over the field's None/0/>0 states)"
         return None
     if k in ("slice:split_at", "slice:split_at_mut", "slice:drain", "slice:remove", "slice:swap_remove", "slice:split_off", "slice:truncate") and len(site.operands) >= 2:
         ec, ei = site.operands[0], site.operands[1]
